@@ -93,7 +93,7 @@ def body(c):
         "TLC: every reachable DAG up to 3 (4) nodes over all executable combinators, word constants and three jets, principal "
         "typing instantiated by K schemes, all inputs, witness/word values, memory fill 0/1, every machine step a state "
         "(frame/bound/semantic invariants); each finished run replayed on BitMachine (twice: zeroed and 0xFF-filled memory); "
-        "plus recorded runs of generated programs validated by TLC; about 120 arithmetic / logic / comparison jets are specified as "
+        "plus recorded runs of generated programs validated by TLC; 305 Core jets (arithmetic, logic, comparison, shifts, division, slicing, padding) are specified as "
         "bit-string functions (JetLib.tla) and judged on every recorded visit and on patterned and random inputs of their own"))
 
 def record_part(c, pid, q):
